@@ -13,6 +13,7 @@ import Gojq.Model.Cli.Stream
 import Gojq.Model.Cli.Inputs
 import Gojq.Model.Wire
 import Driver.Common
+import Driver.C1516Flags
 open Gojq Gojq.Wire Gojq.Stream Gojq.Inputs
 
 def parseToks : List String → List Tok → Option (List Tok × Term)
@@ -116,4 +117,4 @@ def inputsLine (line : String) : String :=
 
 def main (args : List String) : IO UInt32 :=
   Driver.main [("stream", streamLine), ("tostream", tostreamLine), ("fromstream", fromstreamLine),
-    ("inputs", inputsLine)] args
+    ("inputs", inputsLine), ("flags", flagsLine), ("flagtable", flagTableLine)] args
